@@ -856,7 +856,14 @@ func TestRandomConfigs(t *testing.T) {
 			// the flow's own filter may also constrain status codes, query parameters or headers (evaluated on
 			// both directions, also for a response the gateway generates itself)
 			f.FilterExtra = rapid.SampledFrom([]string{"", "", "  status_code: [200, 418]\n", "  status_code: [500]\n",
-				"  query_params:\n    - key: q\n      value: \"1\"\n", "  headers:\n    - key: x-k\n      value: \"1\"\n"}).Draw(t, "filter-"+name)
+				"  query_params:\n    - key: q\n      value: \"1\"\n", "  headers:\n    - key: x-k\n      value: \"1\"\n",
+				// shapes a hand-written file may well have: a condition written twice, list / map / null / numeric values
+				// (the loader takes any YAML value; a value that is not a string matches nothing)
+				"  headers:\n    - key: x-k\n      value: \"1\"\n    - key: x-k\n      value: \"1\"\n",
+				"  headers:\n    - key: x-plan\n      value: [gold, silver]\n    - key: x-plan\n      value: [bronze]\n",
+				"  query_params:\n    - key: q\n      value: {a: 1}\n    - key: q\n      value: {a: 2}\n",
+				"  headers:\n    - key: x-k\n      value: null\n    - key: x-k\n      value: 1\n",
+				"  method: [GET, GET]\n  status_code: [200, 200]\n"}).Draw(t, "filter-"+name)
 			if f.FilterExtra != "" {
 				c.Tags = append(c.Tags, "filter-with-further-constraints")
 			}
